@@ -73,8 +73,13 @@ type Channel struct {
 // NewChannel communicates the creation of a new channel with the
 // server.
 func (tds *Conn) NewChannel() (*Channel, error) {
+	// The channel ID must be allocated and the channel registered
+	// atomically as channels can be created concurrently and the reader
+	// goroutine accesses the registered channels as well.
+	tds.tdsChannelsLock.Lock()
 	channelId, err := tds.getValidChannelId()
 	if err != nil {
+		tds.tdsChannelsLock.Unlock()
 		return nil, fmt.Errorf("error getting channel ID: %w", err)
 	}
 
@@ -94,6 +99,7 @@ func (tds *Conn) NewChannel() (*Channel, error) {
 	}
 
 	tds.tdsChannels[channelId] = tdsChan
+	tds.tdsChannelsLock.Unlock()
 
 	// channel 0 needs no setup
 	if channelId == 0 {
